@@ -29,11 +29,16 @@ def float32_sweep(ctx):
     """float32 has only 2^32 values: the thorough tier round-trips ALL of them through the real
     Marshal/Unmarshal (top-level field, pointer field), the quick tier a strided sample."""
     stride = 1 if ctx.tier == "thorough" else 65537
-    rc, obs, err = hv.run_harness("io", [{"id": 1, "sweep": {"from": 0, "to": 2**32, "stride": stride}}], timeout=3600)
-    sw = obs[0].get("sweep") if obs else None
-    if not sw:
-        ctx.report("c01:float32-sweep-crashed", "the float32 sweep executor died: " + err[-300:], {"failing_input": True})
+    # the range is split over several executor processes (a full sweep is 2^32 round trips)
+    nchunks = 16 if stride == 1 else 1
+    step = 2**32 // nchunks
+    specs = [{"id": i + 1, "sweep": {"from": i * step, "to": (i + 1) * step if i < nchunks - 1 else 2**32, "stride": stride}} for i in range(nchunks)]
+    rc, obs, err = hv.run_harness_parallel("io", specs, nproc=nchunks, timeout=3 * 3600)
+    parts = [o.get("sweep") for o in obs if o.get("sweep")]
+    if len(parts) != nchunks:
+        ctx.report("c01:float32-sweep-crashed", "a float32 sweep executor died (%d of %d parts returned): %s" % (len(parts), nchunks, err[-300:]), {"failing_input": True})
         return
+    sw = {"count": sum(x["count"] for x in parts), "nbad": sum(x["nbad"] for x in parts), "bad": [b for x in parts for b in (x.get("bad") or [])]}
     ctx.note("float32_sweep", {"values": sw["count"], "stride": stride, "mismatches": sw["nbad"], "exhaustive": stride == 1})
     ctx.cov["evaluations"] += sw["count"]
     if sw["nbad"]:
